@@ -8,7 +8,8 @@
          [tree_cost] (None = inf), max replenishment times by [replen_tab].
    CSTs and times are naturals, the stage cost c k tau is an ARBITRARY table of rationals
    (the implementation's h*z*sigma*sqrt(tau)); monotonicity of c is assumed only where stated. *)
-From SV Require Import Base.Qx Alg.GSM Alg.GSM_proofs Alg.GSMTree_proofs Alg.GSMSerialTree_proofs.
+From SV Require Import Base.Qx Alg.GSM Alg.GSM_proofs Alg.GSMTree_proofs Alg.GSMSerialTree_proofs Alg.GSMRelabel_proofs.
+From Coq Require Import Permutation.
 
 (* ------------------------------------------------------------------------------------------- *)
 Section C08_serial.
@@ -113,22 +114,42 @@ Theorem C08_serial_equals_tree (N : nat) (T : nat -> nat) (ein eout : nat) (c : 
 Proof. exact (serial_equals_tree N T ein eout c). Qed.
 
 (* ------------------------------------------------------------------------------------------- *)
-(* Not proved (statement only; checked per generated instance by the harness: the model's labelling equals the
-   implementation's, and an independent oracle checks that every relabelled node but the last has exactly one
-   larger neighbour in the recorded direction):
-   relabel_nodes produces a correct labelling for every graph that admits one (i.e. for every tree).
-   Missing: the counting argument that the greedy leaf elimination never gets stuck and leaves exactly one unlabelled
-   neighbour at each step.  "Results do not depend on node numbering" is likewise search-only at the level of the whole
-   pipeline; for two correct labellings of the same network it follows from C08_tree_optimal/C08_tree_cost_consistent
-   (both costs are the minimum over the same set of feasible vectors). *)
-Definition relabel_correct_statement : Prop :=
-  forall (ids : list nat) (edges : list (nat * nat)),
+(* relabel_nodes (greedy leaf elimination) produces a correct labelling for every SIMPLE graph that admits one, i.e. for every tree
+   (Alg/GSMRelabel_proofs.v: the f-smallest unlabelled node always has at most one unlabelled neighbour, so the elimination never gets
+   stuck; labelling it preserves the invariant "every unlabelled node but the largest has exactly one larger unlabelled neighbour").
+   As first stated here (without the side condition) the clause is FALSE: is_correctly_labeled counts larger neighbours as a SET, the
+   greedy loop counts unlabelled neighbours as a LIST, so a repeated edge, an antiparallel pair (a,b),(b,a) or a self-loop is
+   invisible to the former and makes the latter stop with an empty labelling (C08_relabel_needs_simple_graph). stockpyl's
+   neighbor_indices documents the same assumption ("no predecessor can also be a successor"). *)
+Theorem C08_relabel_correct : forall (ids : list nat) (edges : list (nat * nat)),
     NoDup ids -> (forall e, In e edges -> In (fst e) ids /\ In (snd e) ids) ->
+    NoDup edges -> (forall a b, In (a, b) edges -> a <> b /\ ~ In (b, a) edges) ->
     (exists f : nat -> nat, (forall i j, In i ids -> In j ids -> f i = f j -> i = j) /\
         is_correctly_labeled (map f ids) (map (fun e => (f (fst e), f (snd e))) edges) = true) ->
     let nl := new_labels ids edges true in
     let g := fun i => match adj_get nl i with Some x => x | None => 0%nat end in
     is_correctly_labeled (map g ids) (map (fun e => (g (fst e), g (snd e))) edges) = true.
+Proof. exact relabel_correct_simple_graph. Qed.
+(* the new labels are a permutation of 0..n-1 and every node gets one: the elimination never gets stuck *)
+Theorem C08_relabel_never_stuck : forall (ids : list nat) (edges : list (nat * nat)),
+    NoDup ids -> (forall e, In e edges -> In (fst e) ids /\ In (snd e) ids) ->
+    (forall i, NoDup (nbrs edges i)) ->
+    (exists f : nat -> nat, (forall i j, In i ids -> In j ids -> f i = f j -> i = j) /\
+        is_correctly_labeled (map f ids) (map (fun e => (f (fst e), f (snd e))) edges) = true) ->
+    let nl := new_labels ids edges true in
+    let g := fun i => match adj_get nl i with Some x => x | None => 0%nat end in
+    Permutation (map g ids) (seq 0 (length ids)) /\ Permutation (map fst nl) ids.
+Proof. exact relabel_never_stuck. Qed.
+Theorem C08_relabel_needs_simple_graph :
+  exists (ids : list nat) (edges : list (nat * nat)),
+    NoDup ids /\ (forall e, In e edges -> In (fst e) ids /\ In (snd e) ids) /\
+    (exists f : nat -> nat, (forall i j, In i ids -> In j ids -> f i = f j -> i = j) /\
+        is_correctly_labeled (map f ids) (map (fun e => (f (fst e), f (snd e))) edges) = true) /\
+    new_labels ids edges true = [] /\
+    ~ (let nl := new_labels ids edges true in
+       let g := fun i => match adj_get nl i with Some x => x | None => 0%nat end in
+       is_correctly_labeled (map g ids) (map (fun e => (g (fst e), g (snd e))) edges) = true).
+Proof. exact relabel_correct_statement_refuted. Qed.
 
 (* non-vacuity: a 4-node tree (0 -> 2, 2 -> 1, 2 -> 3; demand at 1 and 3; external CSTs) satisfies the hypotheses,
    the DP returns cost 6.732 with CSTs (0,0,0,1), and the all-zero vector is feasible but strictly more expensive;
@@ -165,3 +186,6 @@ Print Assumptions C08_tree_optimal.
 Print Assumptions C08_feasible_box.
 Print Assumptions C08_run_is_model.
 Print Assumptions C08_serial_equals_tree.
+Print Assumptions C08_relabel_correct.
+Print Assumptions C08_relabel_never_stuck.
+Print Assumptions C08_relabel_needs_simple_graph.
